@@ -123,7 +123,7 @@ func isHarnessSource(p string) bool {
 func skipDisk(p string) bool { return isHarnessSource(p) }
 
 // RunWorld executes the world and returns the first violation, if any.
-var textTrigger = regexp.MustCompile(`(?m)^(\[.+ - \d+\]|/-/-/-/)$`)
+var textTrigger = regexp.MustCompile(`(?m)^(\[(Test|Benchmark|Fuzz).* - \d+\]|/-/-/-/)$`)
 
 // hasTextTrigger: some value of the world carries the textual trigger of a known
 // finding (K1, K2). Such a world is judged by the model-based oracles only, whose
@@ -344,7 +344,7 @@ func runWorld(env *Env, w *World) *Outcome {
 		}
 		d.Other[pf.Path] = pf.Data
 	}
-	st := &wstate{env: env, w: w, d: d, out: out, root: root, side: side, sortedOK: map[string]bool{}}
+	st := &wstate{env: env, w: w, d: d, out: out, root: root, side: side, sortedOK: map[string]bool{}, cleanRewrote: map[string]bool{}}
 	for i, l := range w.Lifetimes {
 		st.runLifetime(i, l)
 		if out.Viol != nil || out.Infra != "" {
@@ -362,6 +362,10 @@ type wstate struct {
 	root     string
 	side     string
 	sortedOK map[string]bool // files sorted by a previous Clean and unchanged since
+	// multi-entry files that a Clean of an earlier lifetime rewrote: a slot of such a file
+	// that no longer replays its value also violates C10 ("every surviving entry replays
+	// exactly the value it held before")
+	cleanRewrote map[string]bool
 }
 
 var footerLine = regexp.MustCompile(`(?m)^at (.+):\d+$`)
@@ -749,6 +753,22 @@ func (st *wstate) runLifetime(i int, l *scen.Lifetime) {
 		for _, prop := range plan.KeepFiles {
 			out.Stats.Probes["clean_keep_files_"+prop]++
 		}
+		{
+			// the same id stale in one file and to be kept in another one
+			keptIn := map[string]int{}
+			for k := range plan.KeepTests {
+				_, id := model.SplitKey(k)
+				keptIn[id]++
+			}
+			for k := range plan.ObsoleteTests {
+				if _, id := model.SplitKey(k); keptIn[id] > 0 {
+					out.Stats.Probes["stale_id_kept_in_other_file"]++
+					if plan.Deletes {
+						out.Stats.Probes["stale_id_kept_in_other_file_clean_mode"]++
+					}
+				}
+			}
+		}
 		out.Stats.Probes["clean_obsolete_entries"] += len(plan.ObsoleteTests)
 		out.Stats.Probes["clean_obsolete_files"] += len(plan.ObsoleteFiles)
 		out.Stats.Probes["clean_free_items"] += len(plan.FreeTests) + len(plan.FreeFiles)
@@ -775,6 +795,9 @@ func (st *wstate) runLifetime(i int, l *scen.Lifetime) {
 	}
 	if st.checkDisk(i, l, lf, after, plan, cleanTouched, updatedAny, matcherFailAny) {
 		return
+	}
+	for p := range cleanTouched {
+		st.cleanRewrote[p] = true
 	}
 	out.Stats.StateHashes = append(out.Stats.StateHashes, after.Hash())
 	out.Stats.Trace = append(out.Stats.Trace, fmt.Sprintf("L%d disk %s", i, after.Hash()))
@@ -896,6 +919,9 @@ func (st *wstate) outcomeViolation(i int, l *scen.Lifetime, ev *scen.CallEvent, 
 	}
 	if tasks {
 		props = append(props, "C06")
+	}
+	if !solo && st.cleanRewrote[ex.File] && (ex.Why == "equal" || ex.Why == "differ") {
+		props = append(props, "C10")
 	}
 	if obs == model.Failed && ex.Why != "matcher" && len(ex.Call.Matchers) > 0 {
 		for _, sg := range ev.Signals {
